@@ -164,6 +164,43 @@ theorem forced_cleanup_oldest (lst : List Seg) (hok : SegsOK lst) (h : (removeOl
     have := (List.pairwise_cons.1 hok.1).1
     simpa [removeOldest] using this
 
+/-- `removeSeg` with an id that is not in the list changes nothing (in particular it never takes the
+    next-younger live segment instead) … -/
+theorem removeSeg_absent_noop (id : Nat) (l : List Nat) (h : id ∉ l) : removeSeg id l = l := by
+  induction l with
+  | nil => rfl
+  | cons b rest ih =>
+    have hb : ¬ b = id := fun e => h (by rw [e]; exact List.mem_cons_self ..)
+    simp only [removeSeg, hb, if_false]
+    rw [ih (fun hm => h (List.mem_cons_of_mem _ hm))]
+
+/-- … and with an id of the (duplicate-free) list it removes exactly that entry. -/
+theorem removeSeg_exact (id : Nat) (l : List Nat) (hnd : l.Nodup) (x : Nat) :
+    x ∈ removeSeg id l ↔ x ∈ l ∧ x ≠ id := by
+  induction l with
+  | nil => simp [removeSeg]
+  | cons b rest ih =>
+    have hp := List.pairwise_cons.1 hnd
+    simp only [removeSeg]
+    by_cases hb : b = id
+    · simp only [hb, if_true, List.mem_cons]
+      constructor
+      · intro hx
+        exact ⟨Or.inr hx, fun e => (hp.1 x hx) (by rw [hb, e])⟩
+      · rintro ⟨h1 | h1, h2⟩
+        · exact absurd h1 h2
+        · exact h1
+    · simp only [hb, if_false, List.mem_cons, ih hp.2]
+      constructor
+      · rintro (h1 | ⟨h1, h2⟩)
+        · exact ⟨Or.inl h1, by rw [h1]; exact hb⟩
+        · exact ⟨Or.inr h1, h2⟩
+      · rintro ⟨h1 | h1, h2⟩
+        · exact Or.inl h1
+        · exact Or.inr ⟨h1, h2⟩
+
+example : removeSeg 5 [1, 3, 7] = [1, 3, 7] ∧ removeSeg 3 [1, 3, 7] = [1, 7] := by decide
+
 /-- two-state gate: while one side holds the retention gate the other does nothing -/
 theorem retention_gate_exclusive (d : DB) (now : Int) :
     gatedDeleteOldest true d.lst = (false, d.lst) ∧ gatedRetentionRun true d now = d ∧
